@@ -451,21 +451,29 @@ def check_values_keep_dtype(prog, rep, rule, pub, entry=None):
     non-raster parameter alone and whose dtype is `<raster parameter>[.data].dtype`.  One obligation per function."""
     from .wterm import WT, walk as twalk, mentions, show as tshow
     entry = entry or pub.name
-    w = WT(prog)
-    try:
-        ret = w.run(pub)
-    except Exception:      # noqa - the terms are best effort; no verdict without them
-        return 0
     params = list(pub.params) + list(getattr(pub, 'kwonly', []))
-    terms = list(w.env.values()) + ([ret] if ret is not None else [])
-    for c in w.calls:
-        terms.extend(c.args)
-        kws = c.kwargs.items() if isinstance(c.kwargs, dict) else c.kwargs
-        terms.extend(v for _, v in kws)
-        if isinstance(c.result, tuple):
-            terms.append(c.result)      # the call itself (inside arithmetic a call is only an atom)
-    for tgt, val, _g, _n in w.stores:
-        terms.extend([tgt, val])
+    terms = []
+    got_any = False
+    # the public function as written, and with the dispatch followed into the numpy and into the dask function (a cast made in
+    # one backend's function only is a cast all the same)
+    for backend in (None, 'numpy', 'dask'):
+        w = WT(prog, backend=backend)
+        try:
+            ret = w.run(pub)
+        except Exception:      # noqa - the terms are best effort; no verdict without them
+            continue
+        got_any = True
+        terms += list(w.env.values()) + ([ret] if ret is not None else [])
+        for c in w.calls:
+            terms.extend(c.args)
+            kws = c.kwargs.items() if isinstance(c.kwargs, dict) else c.kwargs
+            terms.extend(v for _, v in kws)
+            if isinstance(c.result, tuple):
+                terms.append(c.result)      # the call itself (inside arithmetic a call is only an atom)
+        for tgt, val, _g, _n in w.stores:
+            terms.extend([tgt, val])
+    if not got_any:
+        return 0
     rasters = set()
     for t in terms:
         for x in twalk(t):
